@@ -44,6 +44,17 @@ class _Refined:
 TRUTHY, FALSY = _Refined(True), _Refined(False)
 
 
+class SpecObj:
+    """a specification-side stand-in for a run-time object: plain attributes and zero/any-argument
+    callables defined by the *rule* (never repository code)"""
+
+    def __init__(self, **kw):
+        self.__dict__.update(kw)
+
+    def __repr__(self):
+        return "SpecObj(%s)" % ", ".join("%s=%r" % kv for kv in sorted(self.__dict__.items()) if not callable(kv[1]))
+
+
 def refine(ex, test_ast, env, label):
     """environment on the `label` edge of a test that evaluated to UNKNOWN: a bare variable
     (or `not var`) test teaches its truthiness"""
@@ -270,7 +281,27 @@ class Explorer:
             except Exception:
                 return UNKNOWN
             return UNKNOWN
+        if isinstance(e, ast.Attribute):
+            base = self.ev(e.value, env)
+            if isinstance(base, SpecObj) and hasattr(base, e.attr):
+                return getattr(base, e.attr)
+            return UNKNOWN
         if isinstance(e, ast.Call):
+            if isinstance(e.func, ast.Attribute) and not e.keywords:
+                base = self.ev(e.func.value, env)
+                if isinstance(base, SpecObj) and callable(getattr(base, e.func.attr, None)):
+                    args = [self.ev(a, env) for a in e.args]
+                    if any(a is UNKNOWN for a in args):
+                        return UNKNOWN
+                    return getattr(base, e.func.attr)(*args)
+            if isinstance(e.func, ast.Name) and e.func.id in ("any", "all", "sum", "sorted", "list", "tuple") and len(e.args) == 1 and not e.keywords:
+                v = self.ev(e.args[0], env)
+                if v is UNKNOWN or isinstance(v, _Refined):
+                    return UNKNOWN
+                try:
+                    return {"any": any, "all": all, "sum": sum, "sorted": lambda x: tuple(sorted(x)), "list": tuple, "tuple": tuple}[e.func.id](v)
+                except Exception:
+                    return UNKNOWN
             if isinstance(e.func, ast.Attribute) and e.func.attr in PURE_METHODS and not e.keywords:
                 recv = self.ev(e.func.value, env)
                 args = [self.ev(a, env) for a in e.args]
